@@ -51,9 +51,9 @@ Print DIAG_every_revision_total.
 
 (* (deprecated name, repeater, dwell): GetConfig does not return the configuration of the common name *)
 Definition DIAG_deprecated_name := Eval vm_compute in
-  map id_of (filter (fun ac => negb (alias_cfg_check ac)) band_alias_configs)
-  ++ flat_map (fun p => flat_map (fun rep => flat_map (fun dw =>
-       if alias_cover_cell (fst p) rep dw then [] else [(fst p, rep, dw)]) [false; true]) [false; true]) deprecated_names.
+  (map id_of (filter (fun ac => negb (alias_cfg_check ac)) band_alias_configs)
+   ++ flat_map (fun p => flat_map (fun rep => flat_map (fun dw =>
+        if alias_cover_cell (fst p) rep dw then [] else [(fst p, rep, dw)]) [false; true]) [false; true]) deprecated_names)%list.
 Print DIAG_deprecated_name.
 
 (* (name, dwell, version, revision, DR) of the repeater configuration *)
